@@ -253,9 +253,11 @@ struct MusigSim {
         const unsigned char *ex = c.give_extra ? extra : NULL;
         Bytes tuple;
         int ok;
+        uint8_t model_rand[32] = {0};
         MonMark mk = mon_mark();
         if (c.api == 0) {
             uint8_t secrand[32]; fresh32(secrand);
+            memcpy(model_rand, secrand, 32);
             tuple.push_back(0); tuple.insert(tuple.end(), secrand, secrand + 32);
             ok = L01(secp256k1_musig_nonce_gen(ctx, &sn, &pn, secrand, c.give_sk ? sk[i].data() : NULL, &pk[i], m, cache, ex));
             r.cmp();
@@ -267,6 +269,7 @@ struct MusigSim {
             s.disk.write("counter", cb); s.disk.sync();    // synced before use
             uint64_t cnt = ((uint64_t)c.device << c.bits) + s.counter;
             tuple.push_back(1); for (int k = 0; k < 8; k++) tuple.push_back((uint8_t)(cnt >> (56 - 8 * k)));
+            for (int k = 0; k < 8; k++) model_rand[k] = (uint8_t)(cnt >> (56 - 8 * k));   // documented: the counter takes the place of session_secrand32
             ok = L01(secp256k1_musig_nonce_gen_counter(ctx, &sn, &pn, cnt, &kp[i], m, cache, ex));
             if (c.device) r.probe("counter_high_bits");
         }
@@ -280,6 +283,27 @@ struct MusigSim {
         N66 pb;
         L01(secp256k1_musig_pubnonce_serialize(ctx, pb.data(), &pn));
         register_pubnonce(pb, tuple);
+        {   // BIP-327 NonceGen: the public nonce is the model's function of exactly the inputs given
+            uint8_t q[32], k1[32], k2[32], want[66];
+            if (cache) ref::xbytes(s.v.model.Q, q);
+            bool uses_sk = c.api ? true : c.give_sk;
+            r.cmp();
+            bool match = false;
+            // the counter variant is documented as nonce_gen with the counter "instead of a secret random value"; how the 64-bit
+            // value is laid out in the 32 bytes is not documented, so any of the four plain layouts is accepted
+            for (int enc = 0; enc < (c.api ? 4 : 1) && !match; enc++) {
+                uint8_t rnd[32] = {0};
+                if (!c.api) memcpy(rnd, model_rand, 32);
+                else for (int k = 0; k < 8; k++) rnd[(enc & 2 ? 24 : 0) + k] = model_rand[enc & 1 ? 7 - k : k];
+                match = !ref::nonce_gen(rnd, uses_sk ? sk[i].data() : NULL, pk33[i].data(), cache ? q : NULL, m, 32, ex, 32, k1, k2, want) || memcmp(want, pb.data(), 66) == 0;
+                if (enc) r.probe("noncegen_counter_alt_layout_tried");
+            }
+            if (!match) {
+                r.violate("C12", "noncegen_differs_from_bip327", c.api ? "secp256k1_musig_nonce_gen_counter" : "secp256k1_musig_nonce_gen",
+                          std::string("public nonce is not NonceGen(rand, sk, pk, aggpk, msg, extra) of the inputs given (msg ") + (m ? "present" : "absent") + ", aggpk " + (cache ? "present" : "absent") + ", extra " + (ex ? "present" : "absent") + ", sk " + (uses_sk ? "present" : "absent") + "): got " + hex(pb.data(), 66).substr(0, 40) + "... want " + hex(want, 66).substr(0, 40) + "...");
+                return;
+            }
+        }
         s.secnonce[a] = sn; s.pubnonce[a] = pb;
         Msg o; o.kind = K_PUBNONCE; o.attempt = a; o.from = i; o.to = 0; o.bytes.assign(pb.begin(), pb.end());
         net.send(o);
